@@ -22,7 +22,7 @@ REG = Registry(
 
 
 def client_case(draw):
-    c = gen.fa_case(draw, max_sessions=4)
+    c = gen.fa_case(draw, max_sessions=4, scale_lo=-6, scale_hi=3)
     r = gen.rng(draw)
     fa = sut.fa_ref(c)
     c["z"] = r.normal(0, 1, fa.CF)
@@ -87,7 +87,7 @@ def c_score(ctx, case):
     got1 = float(m.score(model_arg(case), [one]))
     ctx.close(got, got1, "score([a,b,..]) == score([a+b+..])", rtol=1e-9, atol=1e-11 * mag)
     # the machine must follow later assignments of its parameters (no stale cached products)
-    case2 = dict(case, U=np.array(case["U"]) * 0.5 + 0.05 * np.abs(case["U"]).mean(), D=np.array(case["D"]) * 1.5)
+    case2 = dict(case, U=np.array(case["U"]) * 0.5 + 0.05 * np.abs(case["U"]).mean(axis=1, keepdims=True), D=np.array(case["D"]) * 1.5)
     m.U = np.array(case2["U"])
     m.D = np.array(case2["D"])
     want2, x2, ux2, mean2 = ref_score(case2, sessions)
